@@ -326,6 +326,30 @@ func init() {
 				if !eqStrs(gotNames, e.names) {
 					return fail(fmt.Sprintf("options offered %q, expected exactly the keys of level %q starting with the typed text: %q (raw candidates %q)", gotNames, exp.Node, e.names, got))
 				}
+				// a candidate is a key: `--k`, `--k=`; text behind the `=` is only the documented hint for the single remaining
+				// option (`--k=<argname>` or `--k=` + one of that option's own suggested/valid values)
+				for _, c := range got {
+					body := strings.TrimPrefix(strings.TrimRight(c, " "), "--")
+					i := strings.Index(body, "=")
+					if c == "-" || i < 0 || i == len(body)-1 {
+						continue
+					}
+					if len(e.names) != 1 {
+						return fail(fmt.Sprintf("candidate %q carries a value although %d keys match the typed text (value hints belong to a single remaining option): %q", c, len(e.names), got))
+					}
+					k, v := body[:i], body[i+1:]
+					ok := strings.HasPrefix(v, "<") && strings.HasSuffix(v, ">")
+					if o := node.KeyTable()[k]; o != nil {
+						for _, sv := range append(append([]string{}, o.Valid...), o.Suggested...) {
+							if sv == v {
+								ok = true
+							}
+						}
+					}
+					if !ok {
+						return fail(fmt.Sprintf("candidate %q: %q is neither an argument hint nor a suggested/valid value of option %q (raw candidates %q)", c, v, k, got))
+					}
+				}
 			case "list":
 				g2 := make([]string, len(got))
 				for i, c := range got {
